@@ -12,6 +12,9 @@ and comes back in the same shape (plus "type").  The serialisers are the identit
 import PybtexModel.Drv.Json
 import PybtexModel.Model.BibWrite
 import PybtexModel.Spec.BibWrite
+import PybtexModel.Model.BibWriteText
+import PybtexModel.Spec.BibWriteText
+import PybtexModel.Model.Backends
 open Lean
 namespace Pybtex.Drv.C02
 open Pybtex.Bib Pybtex.BibWrite
@@ -203,9 +206,73 @@ def xmlread (j : Json) : Except String Json := do
   | .error e => pure (obj [("out", obj [("error", Json.str (errName e))])])
   | .ok r => pure (obj [("out", readResJ r)])
 
+/-! function-level ops (round 2): one function of the code each, so that a disagreement is localised -/
+
+/-- `encode`: `Writer._encode(s)` and `Writer._encode_with_comments(s)` (default encoding) -/
+def encodeOp (j : Json) : Except String Json := do
+  let s ← getStr j "s"
+  let safeC : Bool := s.all fun c => !(c = '#' || c = '&' || c = '_' || c = '~')
+  pure (obj [("out", obj [("text", strToJson (encodeLatex s)),
+                          ("comments", strToJson (encodeWithComments encodeLatex s))]),
+             ("spec", obj [("safe", Json.bool (BibWrite.Safe s)), ("safe_c", Json.bool safeC)])])
+
+/-- `encodeenc`: `Writer(encoding=…)._encode(s)` = `codecs.encode(s, 'ulatex+' + encoding)` (C09's model of the codec) -/
+def encodeEncOp (j : Json) : Except String Json := do
+  let s ← getStr j "s"
+  let enc ← getStr j "encoding"
+  match Backends.Latex.encodableIn enc with
+  | none => throw "encoding not modelled"
+  | some E =>
+    let spec := obj [("holds", Json.bool (s.all E)), ("default", strToJson (encodeLatex s))]
+    match Backends.Latex.latexcodecEncodeE E s with
+    | none => pure (obj [("out", obj [("error", Json.str "UnicodeEncodeError")]), ("spec", spec)])
+    | some t => pure (obj [("out", obj [("text", strToJson t)]), ("spec", spec)])
+
+/-- `quote`: `Writer.quote(s)` (with `check_braces`: both error points) -/
+def quoteOp (j : Json) : Except String Json := do
+  let s ← getStr j "s"
+  match quote s with
+  | .error e => pure (obj [("out", obj [("error", Json.str (errName e))]),
+                           ("spec", obj [("balanced", Json.bool false)])])
+  | .ok t => pure (obj [("out", obj [("text", strToJson t)]),
+                        ("spec", obj [("balanced", Json.bool (Pybtex.BibSpec.litScan false 0 s == some 0))])])
+
+mutual
+def yJ : YNode → Json
+  | .str s => strToJson s
+  | .other t => obj [("other", strToJson t)]
+  | .seq items => Json.arr (ysJ items).toArray
+  | .map items => obj [("map", Json.arr (ymJ items).toArray)]
+def ysJ : List YNode → List Json
+  | [] => []
+  | x :: r => yJ x :: ysJ r
+def ymJ : List (Str × YNode) → List Json
+  | [] => []
+  | (k, v) :: r => arr [strToJson k, yJ v] :: ymJ r
+end
+
+/-- `yamltree`: `Writer._to_dict(db)` of the YAML writer, the value tree itself -/
+def yamltree (j : Json) : Except String Json := do
+  let d ← parseDb (← j.getObjVal? "db")
+  pure (obj [("out", obj [("tree", yJ (toDictYaml d))])])
+
+/-- `xmltext`: the text of `to_string('bibtexml')` and of `to_bytes('bibtexml')` (UTF-8, decoded) -/
+def xmltext (j : Json) : Except String Json := do
+  let d ← parseDb (← j.getObjVal? "db")
+  pure (obj [("out", obj [("string", strToJson (xmlToString d)), ("stream", strToJson (xmlWriteStream d))])])
+
+/-- `xmlesc`: `escape(s)`, `quoteattr(s)`; spec: the reference reading of both -/
+def xmlesc (j : Json) : Except String Json := do
+  let s ← getStr j "s"
+  pure (obj [("out", obj [("escape", strToJson (xmlEscape s)), ("quoteattr", strToJson (xmlQuoteAttr s))]),
+             ("spec", obj [("text_back", optJ strToJson (xmlUnescape (xmlEscape s))),
+                           ("attr_back", optJ strToJson (xmlAttrValue (xmlQuoteAttr s))),
+                           ("raw_reading", optJ strToJson (xmlUnescape s))])])
+
 /-- driver ops of this property: (op name, handler) -/
 def handlers : List (String × (Json → Except String Json)) :=
   [("bibwrite", bibwrite), ("personfmt", personfmt), ("lowerdb", lowerdb), ("convert", convertOp),
-   ("yamlread", yamlread), ("xmlread", xmlread)]
+   ("yamlread", yamlread), ("xmlread", xmlread), ("encode", encodeOp), ("encodeenc", encodeEncOp), ("quote", quoteOp),
+   ("yamltree", yamltree), ("xmltext", xmltext), ("xmlesc", xmlesc)]
 
 end Pybtex.Drv.C02
